@@ -1464,9 +1464,92 @@ func (e *Exec) copyBuiltin(dstV, srcV Value) Value {
 	return n
 }
 
+// appendBuiltin: append(s, t...) with concrete lengths and capacities (Go's
+// aliasing rule: in place when the capacity suffices, else a fresh array of
+// exactly the needed size).
 func (e *Exec) appendBuiltin(fr *frame, c *ssa.CallCommon, args []Value) Value {
-	e.unsupported("append")
-	return nil
+	dst := args[0].(*SliceV)
+	isBytes := isByteSlice(c.Args[0].Type())
+	var srcLen *Term
+	var src *SliceV
+	var srcStr *StringV
+	switch x := args[1].(type) {
+	case *SliceV:
+		src, srcLen = x, x.len
+	case *StringV:
+		srcStr = x
+		_, srcLen = e.stringArr(x)
+	default:
+		e.unsupported("append source")
+	}
+	if dst.len.op != OpConst || dst.cap.op != OpConst || srcLen.op != OpConst || dst.off.op != OpConst {
+		e.unsupported("append with symbolic length or capacity")
+	}
+	n, k, cp := int(dst.len.val), int(srcLen.val), int(dst.cap.val)
+	if k == 0 {
+		return dst
+	}
+	if n+k > 1<<16 {
+		e.unsupported("append beyond 65536 elements")
+	}
+	out := &SliceV{obj: dst.obj, path: dst.path, off: dst.off, len: e.c64(int64(n + k)), cap: dst.cap}
+	if n+k > cp || dst.obj == nil {
+		// grow: fresh backing store, old elements copied
+		if isBytes {
+			arr := e.st.ConstArr(bytesSort, 0)
+			if dst.obj != nil {
+				old := e.sliceBytes(dst)
+				for i := 0; i < n; i++ {
+					arr = e.st.StoreArr(arr, e.c64(int64(i)), e.st.Select(old.arr, e.st.Bin(OpAdd, dst.off, e.c64(int64(i)))))
+				}
+			}
+			out = &SliceV{obj: e.newObj(&BytesV{arr: arr, n: -1}, "append"), off: e.c64(0), len: e.c64(int64(n + k)), cap: e.c64(int64(n + k))}
+		} else {
+			et := c.Args[0].Type().Underlying().(*types.Slice).Elem()
+			a := &ArrayV{e: make([]Value, n+k)}
+			for i := range a.e {
+				a.e[i] = e.zero(et)
+			}
+			if dst.obj != nil {
+				old := e.load0(&PtrV{obj: dst.obj, path: dst.path}).(*ArrayV)
+				for i := 0; i < n; i++ {
+					a.e[i] = copyVal(old.e[int(dst.off.val)+i])
+				}
+			}
+			out = &SliceV{obj: e.newObj(a, "append"), off: e.c64(0), len: e.c64(int64(n + k)), cap: e.c64(int64(n + k))}
+		}
+	}
+	// store the new elements
+	if isBytes {
+		db := e.sliceBytes(out)
+		var sarr, soff *Term
+		if src != nil {
+			if src.obj == nil {
+				return out
+			}
+			sarr, soff = e.sliceBytes(src).arr, src.off
+		} else {
+			sarr, _ = e.stringArr(srcStr)
+			soff = e.c64(0)
+		}
+		vals := make([]*Term, k)
+		for i := range vals {
+			vals[i] = e.st.Select(sarr, e.st.Bin(OpAdd, soff, e.c64(int64(i))))
+		}
+		for i := range vals {
+			db.arr = e.st.StoreArr(db.arr, e.st.Bin(OpAdd, out.off, e.c64(int64(n+i))), vals[i])
+		}
+		return out
+	}
+	if src == nil || src.off.op != OpConst {
+		e.unsupported("append of this source to a non-byte slice")
+	}
+	da := e.load0(&PtrV{obj: out.obj, path: out.path}).(*ArrayV)
+	sa := e.load0(&PtrV{obj: src.obj, path: src.path}).(*ArrayV)
+	for i := 0; i < k; i++ {
+		da.e[int(out.off.val)+n+i] = copyVal(sa.e[int(src.off.val)+i])
+	}
+	return out
 }
 
 // ctxCause returns the id of the nearest cancelled ancestor-or-self (0 = live).
